@@ -32,6 +32,11 @@
 #include <veriblock/pop/entities/vbktx.hpp>
 #include <veriblock/pop/entities/vtb.hpp>
 #include <veriblock/pop/pop_stateless_validator.hpp>
+#include <veriblock/pop/entities/endorsements.hpp>
+#include <veriblock/pop/storage/stored_block_index.hpp>
+#include <veriblock/pop/storage/stored_alt_block_addon.hpp>
+#include <veriblock/pop/storage/stored_btc_block_addon.hpp>
+#include <veriblock/pop/storage/stored_vbk_block_addon.hpp>
 #include <veriblock/pop/serde.hpp>
 #include <veriblock/pop/stateless_validation.hpp>
 
@@ -155,6 +160,60 @@ static Tree dump(const VTB&);
 static void load(const Tree&, VTB&);
 static Tree dump(const PopData&);
 static void load(const Tree&, PopData&);
+template <typename E>
+static Tree dump_endorsement(const E& e) {
+  return rec({tb(e.id), tb(e.endorsedHash), tb(e.containingHash), tb(e.blockOfProof)});
+}
+static Tree dump(const VbkEndorsement& e) { return dump_endorsement(e); }
+static Tree dump(const AltEndorsement& e) { return dump_endorsement(e); }
+static void load(const Tree& t, VbkEndorsement& e) {
+  need(t, 'R', 4);
+  e.id = uint256(bt(t.kids[0]));
+  e.endorsedHash = uint192(bt(t.kids[1]));
+  e.containingHash = uint192(bt(t.kids[2]));
+  e.blockOfProof = uint256(bt(t.kids[3]));
+}
+static void load(const Tree& t, AltEndorsement& e) {
+  need(t, 'R', 4);
+  e.id = uint256(bt(t.kids[0]));
+  e.endorsedHash = bt(t.kids[1]);
+  e.containingHash = bt(t.kids[2]);
+  e.blockOfProof = uint192(bt(t.kids[3]));
+}
+template <typename V>
+static Tree dump_ids(const V& v) {
+  std::vector<Tree> k;
+  for (auto& x : v) k.push_back(tb(x));
+  return lst(k);
+}
+template <typename P>
+static Tree dump_popstate(const P& p) {
+  std::vector<Tree> k;
+  for (auto& kv : p.getContainingEndorsements()) k.push_back(dump_endorsement(*kv.second));
+  return lst(k);
+}
+static Tree dump(const StoredBtcBlockAddon& a) {
+  std::vector<Tree> r;
+  for (auto x : a.refs) r.push_back(tz(x));
+  return rec({dump_ids(a.blockOfProofEndorsementIds), lst(r)});
+}
+static Tree dump(const StoredVbkBlockAddon& a) {
+  return rec({dump_ids(a.endorsedByIds), dump_ids(a.blockOfProofEndorsementIds), tu(a._refCount), dump_ids(a._vtbids),
+              dump_popstate(a.popState)});
+}
+static Tree dump(const StoredAltBlockAddon& a) {
+  return rec({dump_ids(a.endorsedByIds), dump_ids(a._atvids), dump_ids(a._vtbids), dump_ids(a._vbkblockids),
+              dump_popstate(a.popState)});
+}
+static Tree dump(const AltBlock& b);
+template <typename B>
+static Tree dump(const StoredBlockIndex<B>& s) {
+  return rec({tz(s.height), dump(*s.header), tu(s.status), dump(s.addon)});
+}
+template <typename B>
+static void load(const Tree&, StoredBlockIndex<B>&) {
+  throw std::runtime_error("enc not supported for stored types");
+}
 static Tree dump(const AltBlock& b) { return rec({tb(b.hash), tb(b.previousBlock), tz(b.height), tu(b.timestamp)}); }
 static void load(const Tree& t, AltBlock& b) {
   need(t, 'R', 4);
@@ -386,6 +445,11 @@ static size_t estimate(const T& v) {
   return v.estimateSize();
 }
 static size_t estimate(const RawBtc& v) { return v.b.estimateSize() - 1; }
+// no estimateSize() in the library for these: the oracle compares with the real size only
+static size_t estimate(const VbkEndorsement& v) { return encode(v).size(); }
+static size_t estimate(const AltEndorsement& v) { return encode(v).size(); }
+template <typename B>
+static size_t estimate(const StoredBlockIndex<B>& v) { return encode(v).size(); }
 static size_t estimate(const RawVbk& v) { return v.b.estimateSize() - 1; }
 
 // cheap content hashes (no progpow): "" when the type has none
@@ -617,6 +681,11 @@ static std::string handle(const std::string& id, const std::string& op, const st
   if (t == "btcblockraw") return run<RawBtc>(id, op, a[1]);
   if (t == "vbkblock") return run<VbkBlock>(id, op, a[1]);
   if (t == "vbkblockraw") return run<RawVbk>(id, op, a[1]);
+  if (t == "vbkendorsement") return run<VbkEndorsement>(id, op, a[1]);
+  if (t == "altendorsement") return run<AltEndorsement>(id, op, a[1]);
+  if (t == "storedbtc") return run<StoredBlockIndex<BtcBlock>>(id, op, a[1]);
+  if (t == "storedvbk") return run<StoredBlockIndex<VbkBlock>>(id, op, a[1]);
+  if (t == "storedalt") return run<StoredBlockIndex<AltBlock>>(id, op, a[1]);
   if (t == "altblock") return run<AltBlock>(id, op, a[1]);
   if (t == "keystones") return run<KeystoneContainer>(id, op, a[1]);
   if (t == "ctxinfo") return run<ContextInfoContainer>(id, op, a[1]);
